@@ -213,6 +213,19 @@ func (r *Router) addHandlerLevelMiddleware(handlerName string, m ...HandlerMiddl
 	}
 }
 
+func (r *Router) removeHandlerLevelMiddlewares(handlerName string) {
+	r.middlewaresLock.Lock()
+	defer r.middlewaresLock.Unlock()
+
+	kept := make([]middleware, 0, len(r.middlewares))
+	for _, m := range r.middlewares {
+		if m.IsRouterLevel || m.HandlerName != handlerName {
+			kept = append(kept, m)
+		}
+	}
+	r.middlewares = kept
+}
+
 // AddPlugin adds a new plugin to the router.
 // Plugins are executed during startup of the router.
 //
@@ -474,6 +487,9 @@ func (r *Router) RunHandlers(ctx context.Context) error {
 			logger.Info("Subscriber stopped", nil)
 
 			r.handlersLock.Lock()
+			// The name can be taken by a new handler as soon as this one is deleted:
+			// that handler must not inherit the middlewares which were added to this one.
+			r.removeHandlerLevelMiddlewares(name)
 			delete(r.handlers, name)
 			r.handlersLock.Unlock()
 
